@@ -1,12 +1,13 @@
 (* Verify/Status.v — executable model of revocation-status validation (property C09;
    also the last step of BJJ proof verification, C07).  NO proofs in this file
-   (theorems: Verify/StatusTheory.v, Verify/WithSMT.v; per-run evaluation: Verify/Run.v).
+   (theorems: Verify/StatusTheory.v, restated in Properties/C09.v; per-run evaluation:
+   Verify/StatusRun.v).
 
    Go code modelled (as it is in /repo now, statement by statement):
      verifiable/credential_status.go  ValidateCredentialStatus, rootFromMerkleTreeProof,
                                       verifyMerkleTreeProof, coerceCredentialStatus,
                                       resolveRevStatus, validateTreeState
-     verifiable/resolver.go           CredentialStatusResolverRegistry.Get
+     verifiable/resolver.go           CredentialStatusResolverRegistry.Register / Get / Delete
      verifiable/status_direct.go      IssuerResolver.Resolve
 
    Conventions
@@ -109,6 +110,28 @@ Definition http_resolve (h : http_result) : res answer :=
 Definition lookup_resolver (reg : registry) (ty : string) : option resolver :=
   assoc String.eqb ty reg.
 
+(* Register: `r.resolvers[resolverType] = resolver` (creates the map when nil);
+   Delete: `delete(r.resolvers, resolverType)` (no-op on a nil map).  A nil map and an
+   empty map behave alike for Get, so both are []. *)
+Definition reg_register (reg : registry) (ty : string) (r : resolver) : registry :=
+  upsert String.eqb ty r reg.
+Definition reg_delete (reg : registry) (ty : string) : registry :=
+  remove_key String.eqb ty reg.
+
+(* a CredentialStatusValidationOption: WithValidationStatusResolverRegistry(r) (r may be a
+   nil pointer) or a caller-defined option that answers an error *)
+Inductive vopt := OptRegistry (r : option registry) | OptFail.
+Definition EOption : string := "status-option"%string.
+
+(* the option loop of ValidateCredentialStatus: later options overwrite earlier ones,
+   the first failing one aborts *)
+Fixpoint apply_opts (cur : option registry) (opts : list vopt) : res (option registry) :=
+  match opts with
+  | [] => Ok cur
+  | OptRegistry r :: rest => apply_opts r rest
+  | OptFail :: _ => Err EOption
+  end.
+
 (* coerceCredentialStatus: the result is a POINTER (nil for a nil *CredentialStatus) *)
 Definition coerce_status (r : raw_status) : res (option cred_status) :=
   match r with
@@ -191,6 +214,16 @@ Definition validate_status (reg : registry) (cs : cred_status) : res answer :=
           else if r_ex (a_mtp ans) then Err ERevoked
           else Ok ans
       end
+  end.
+
+(* ValidateCredentialStatus(ctx, credStatus, opts...): DefaultCredentialStatusResolverRegistry
+   is `dflt`; calling Get on a nil *CredentialStatusResolverRegistry dereferences nil *)
+Definition validate_credential_status (dflt : registry) (opts : list vopt) (cs : cred_status)
+  : res answer :=
+  o <- apply_opts (Some dflt) opts ;;
+  match o with
+  | None => Panic "nil *CredentialStatusResolverRegistry"
+  | Some reg => validate_status reg cs
   end.
 
 End Status.
